@@ -285,6 +285,19 @@ impl<'a> MslV<'a> {
         })
     }
 
+    /// a value of the typed side in the representation of the Metal type: a one-component vector (`float1`) is a scalar
+    pub fn adapt(&self, t: &MTy, v: VV) -> VV {
+        match (t, v) {
+            (MTy::S(_), VV::V(xs)) if xs.len() == 1 => VV::S(xs[0]),
+            (MTy::Struct(k), VV::St(xs)) => match self.structs.get(k) {
+                Some(sd) if sd.members.len() == xs.len() => VV::St(sd.members.iter().zip(xs).map(|(m, x)| self.adapt(&m.1, x)).collect()),
+                _ => VV::St(xs),
+            },
+            (MTy::Arr(e, _), VV::Ar(xs)) => VV::Ar(xs.into_iter().map(|x| self.adapt(e, x)).collect()),
+            (_, v) => v,
+        }
+    }
+
     /// memory with the file-scope constants initialised in emission order
     pub fn init_mem(&self) -> Option<(Mem, Cx)> {
         let mut mem = Mem { cells: Vec::new(), names: Vec::new() };
@@ -341,6 +354,7 @@ impl<'a> MslV<'a> {
                 match (p.head(), &user[i]) {
                     ("val", TopArg::Val(v)) => {
                         let pt = self.ty_in(&p.args()[0], &ns)?;
+                        let v = &self.adapt(&pt, v.clone());
                         let n = p.args()[1].atom().to_string();
                         if let MTy::Arr(..) = pt {
                             let c = mem.alloc(v.clone(), "<caller array>");
@@ -351,6 +365,7 @@ impl<'a> MslV<'a> {
                         user_cells.push(None);
                     }
                     ("ref", TopArg::Var(v)) => {
+                        let v = &self.adapt(&self.ty_in(&p.args()[1], &ns)?, v.clone());
                         let c = mem.alloc(v.clone(), "<caller variable>");
                         bound.push(Bound::Ref(p.args()[2].atom().to_string(), self.ty_in(&p.args()[1], &ns)?, Place { cell: c, path: vec![] }));
                         user_cells.push(Some(c));
